@@ -103,7 +103,9 @@ func randCodePointEscape(r *rand.Rand) string {
 	var cp int
 	switch r.IntN(6) {
 	case 0: // characters that matter to the printer
-		cp = []int{'"', '\'', '\\', '`', '\n', '\r', 0, 0x7f, 0x2028, 0x2029, '0', '1', '7', '9', 'a', 'f', 'x', 'u', '{', '}', '$', 0xd800, 0xdfff, 0xfeff, 0xa0}[r.IntN(25)]
+		cp = []int{'"', '\'', '\\', '`', '\n', '\r', 0, 0x7f, 0x2028, 0x2029, '0', '1', '7', '9', 'a', 'f', 'x', 'u', '{', '}', '$', 0xd800, 0xdfff, 0xfeff, 0xa0,
+			// encoding boundaries
+			0x80, 0x7ff, 0x800, 0xd7ff, 0xe000, 0xfffe, 0xffff, 0x10000, 0x10ffff, 0xffff, 0xffff}[r.IntN(36)]
 	case 1:
 		cp = r.IntN(0x80)
 	case 2:
